@@ -1086,6 +1086,43 @@ theorem cf_cell_between_roundtrip (o : Opts) (ct : String) (ht : o.type = "cell"
   rw [setGet_eq o "cellIs" (some ct) (by rw [ht]; decide) hc (by simp) (by decide)]
   rcases hb with hb | hb <;> subst hb <;> cf_simp <;> simp only [strOr]
 
+/-- rule type "cell" with an accepted criteria that is neither a comparison of `cellIsCriteriaType`
+nor between / not between (the time-period words): the rule is accepted and stored WITHOUT a
+formula; the criteria reads back as its canonical words, Value and Min/MaxValue are dropped -/
+theorem cf_cell_other_roundtrip (o : Opts) (ct : String) (ht : o.type = "cell".toList)
+    (hc : lookupS Facts.C18.criteriaType o.criteria = some ct)
+    (hcell : Facts.C18.cellIsCriteriaType.contains ct = false) (hb : ¬ (ct = "between" ∨ ct = "notBetween")) :
+    setGet o = some (some { Opts.empty with type := "cell".toList, format := o.format, stopIfTrue := o.stopIfTrue, criteria := opWords ct }) := by
+  rw [setGet_eq o "cellIs" (some ct) (by rw [ht]; decide) hc (by simp) (by decide)]
+  have h1 : ct ≠ "between" := fun h => hb (Or.inl h)
+  have h2 : ct ≠ "notBetween" := fun h => hb (Or.inr h)
+  simp only [drawRule, strOr]
+  simp (config := { decide := true }) only [hcell, h1, h2, decide_false, Bool.or_self, Bool.false_eq_true, if_true, if_false, List.append_nil, Option.map_some]
+  cf_simp
+
+/-- rule type "cell", EVERY accepted criteria (the three cases above in one statement): the
+criteria reads back as its canonical words; Value reads back exactly for the comparison criteria,
+Min/MaxValue exactly for between / not between; every other field is dropped -/
+theorem cf_cell_roundtrip (o : Opts) (ct : String) (ht : o.type = "cell".toList)
+    (hc : lookupS Facts.C18.criteriaType o.criteria = some ct) :
+    setGet o = some (some { Opts.empty with type := "cell".toList, format := o.format, stopIfTrue := o.stopIfTrue, criteria := opWords ct, value := (if Facts.C18.cellIsCriteriaType.contains ct then o.value else []), minValue := (if ct = "between" ∨ ct = "notBetween" then o.minValue else []), maxValue := (if ct = "between" ∨ ct = "notBetween" then o.maxValue else []) }) := by
+  by_cases hb : ct = "between" ∨ ct = "notBetween"
+  · have hcell : Facts.C18.cellIsCriteriaType.contains ct = false := by
+      rcases hb with h | h <;> subst h <;> decide
+    rw [cf_cell_between_roundtrip o ct ht hc hb, if_pos hb, if_pos hb, hcell]
+    rfl
+  · cases hcell : Facts.C18.cellIsCriteriaType.contains ct
+    · rw [cf_cell_other_roundtrip o ct ht hc hcell hb, if_neg hb, if_neg hb]
+      rfl
+    · rw [cf_cell_value_roundtrip o ct ht hc hcell, if_neg hb, if_neg hb]
+      rfl
+
+/-- the "other" case is inhabited: a cell rule with the criteria "yesterday" keeps only the criteria -/
+theorem cf_cell_other_example :
+    setGet { Opts.empty with type := "cell".toList, criteria := "yesterday".toList, value := "5".toList } =
+      some (some { Opts.empty with type := "cell".toList, criteria := "yesterday".toList }) := by
+  decide +kernel
+
 /-- finding cfr:accepted-but-not-listed:text — a "text" rule whose criteria is not one of the
 four text criteria is ACCEPTED, stored with an empty rule type, and not listed by the getter -/
 theorem finding_cf_text_rule_hidden :
